@@ -151,7 +151,9 @@ func TestVerifC11(t *testing.T) {
 	state, cleanup := vfNewState(t)
 	defer cleanup()
 	state.Config.Base.AutomationAdmins = []string{"admin1"}
-	state.Config.Base.AllowedAuthBackendsForCerts = []string{proto.AuthTypeIPCertificate}
+	// a usual configuration: passwords and IP certificates both good for certificates (with "password" in the list
+	// certGenHandler asks nothing more of a credential than that checkAuth returned it)
+	state.Config.Base.AllowedAuthBackendsForCerts = []string{proto.AuthTypePassword, proto.AuthTypeIPCertificate}
 	state.Config.Base.AllowedAuthBackendsForWebUI = []string{proto.AuthTypePassword}
 	caCert, err := x509.ParseCertificate(state.selfRoleCaCertDer)
 	if err != nil {
@@ -268,6 +270,25 @@ func TestVerifC11(t *testing.T) {
 				state.Config.Base.AutomationUsers = []string{"role1", "role2"}
 			}
 			// refresh
+			// keys "H:<name>" of the extra parameters are request headers (X-Forwarded-For …), the rest form values
+			reqHeaders := http.Header{}
+			for k, vs := range extraForm {
+				if strings.HasPrefix(k, "H:") {
+					for _, v := range vs {
+						reqHeaders.Add(k[2:], v)
+					}
+					delete(extraForm, k)
+				}
+			}
+			setHeaders := func(req *http.Request, on bool) {
+				if on {
+					for k, vs := range reqHeaders {
+						for _, v := range vs {
+							req.Header.Add(k, v)
+						}
+					}
+				}
+			}
 			doRefresh := func(cs *tls.ConnectionState, from string, extra url.Values) (*httptest.ResponseRecorder, string) {
 				form := url.Values{}
 				form.Add("pubkey", b64public)
@@ -281,6 +302,7 @@ func TestVerifC11(t *testing.T) {
 				req.Header.Add("Content-Type", "application/x-www-form-urlencoded")
 				req.RemoteAddr = from
 				req.TLS = cs
+				setHeaders(req, extra != nil)
 				rr, p := vfServe(state.refreshRoleRequestingCertGenHandler, req)
 				if p != nil {
 					return nil, "PANIC - - - -"
@@ -300,6 +322,7 @@ func TestVerifC11(t *testing.T) {
 				}
 				req2.RemoteAddr = from
 				req2.TLS = cs
+				setHeaders(req2, extra != nil)
 				rr2, p2 := vfServe(state.certGenHandler, req2)
 				if p2 != nil {
 					return "PANIC - - - -"
@@ -314,9 +337,28 @@ func TestVerifC11(t *testing.T) {
 				}
 			}
 			cg := doCertgen(cs, addr, cgExtra)
-			parse := ""
+			// the credential decision itself, independent of what any handler then asks of it:
+			// checkAuth(…, AuthTypeAny) with this chain from this address
+			authany := func() string {
+				res := "-"
+				req3, _ := http.NewRequest("GET", "/profile/", nil)
+				req3.RemoteAddr = addr
+				req3.TLS = cs
+				setHeaders(req3, true)
+				_, p3 := vfServe(func(w http.ResponseWriter, r *http.Request) {
+					ad, err := state.checkAuth(w, r, AuthTypeAny)
+					if err == nil && ad != nil {
+						res = fmt.Sprintf("%s:%d", vfHex(ad.Username), ad.AuthType)
+					}
+				}, req3)
+				if p3 != nil {
+					return "PANIC"
+				}
+				return res
+			}()
+			parse := " authany=" + authany
 			if f[2] == "raw" {
-				parse = " parse=" + vfParseExt(vfExtValue(leaf))
+				parse += " parse=" + vfParseExt(vfExtValue(leaf))
 			}
 			// use the refreshed certificate: what does it open, and from where?
 			use := ""
